@@ -29,6 +29,7 @@ THEOREMS = [
     "C06_hex_roundtrip", "C06_hex_reject_literal", "C06_base64_roundtrip",
     "C06_duration_roundtrip", "C06_duration_mixed_signs", "C06_decimal_roundtrip", "C06_decimal_same_number",
     "C06_decimal_reject_literal", "C06_float_roundtrip",
+    "C06_base64_reject_literal", "C06_duration_reject_literal", "C06_float_reject_literal",
 ]
 
 # ---------------------------------------------------------------------------------------------
@@ -565,7 +566,8 @@ def is_plain(s):
 
 def case_term(mode, tid, text, args, obs):
     h = common.zhash_d(obs, 1)
-    return f"({mode}, {tid}, {coq_str(text)}, {common.coq_list(coq_z(a) for a in args)}, {coq_z(h)})"
+    al = common.coq_list(coq_z(a) for a in args) if args else "(@nil Z)"
+    return f"({mode}, {tid}, {coq_str(text)}, {al}, {coq_z(h)})"
 
 
 def parse_case(tid, lit, obs):
@@ -707,11 +709,35 @@ def value_failure(name, f):
     return None
 
 
+def trivial_cast_failure(name, f):
+    """trivial_cast(plain Python value, T) yields an equal value of type T, or ValueError outside the value space"""
+    d = D()
+    if name in INT_BOUNDS and name != "Integer":
+        plain, inside = int(f[0]), in_value_space(name, f)
+    elif name in ("AnyURI", "NormalizedString"):
+        plain, inside = str(f[0]), in_value_space(name, f)
+    elif name in ("HexBinary", "Base64Binary"):
+        plain, inside = bytes(f[0]), True
+    else:
+        return None
+    try:
+        v = d.trivial_cast(plain, cls_of(name))
+    except ValueError:
+        return f"trivial_cast({plain!r}, {name}) is refused although the value is in the value space" if inside else None
+    except Exception as e:  # noqa
+        return f"trivial_cast({plain!r}, {name}) raised {type(e).__name__}"
+    if not inside:
+        return f"trivial_cast({plain!r}, {name}) accepted a value outside the value space"
+    if type(v) is not cls_of(name) or v != plain:
+        return f"trivial_cast({plain!r}, {name}) = {v!r} of type {type(v).__name__}"
+    return None
+
+
 def run(chk):
     from py2coq import xsdtables
     rng = chk.rng
     quick = chk.tier == "quick"
-    n_values, n_literals = (110, 260) if quick else (900, 2600)        # per type
+    n_values, n_literals = (110, 260) if quick else (1500, 5000)       # per type
 
     # ---- tie T: regenerate the tables and range checks from the current source
     info = None
@@ -729,6 +755,18 @@ def run(chk):
             chk.obligations.append((n, "not-checked", []))
     else:
         chk.theorems("props.C06", THEOREMS, ["theories/props/C06.vo", "theories/model/XsdObs.vo"])
+        # supplement about the pre-repair code: uses Coq's primitive floats; Print Assumptions lists those primitives
+        ok, log = common.coq_make(["theories/props/C06_OldUs.vo"])
+        name = "C06_old_us_expression"
+        if not ok:
+            chk.tie_broken("proof", {"module": "props.C06_OldUs", "detail": log[-800:]})
+            chk.obligations.append((name, "not-checked", []))
+        else:
+            st, ax, raw = common.print_assumptions("props.C06_OldUs", [name], "C06old")[name]
+            foreign = [a for a in ax if not (a.startswith("PrimFloat.") or a.startswith("PrimInt63."))]
+            if st == "error" or foreign:
+                chk.tie_broken("axioms", {"theorem": name, "detail": foreign or raw[-400:]})
+            chk.obligations.append((name, st, ax))
     common.coq_make(["theories/model/XsdObs.vo"])      # the correspondence must run even if a proof broke
 
     # ---- oracle: names
@@ -770,6 +808,9 @@ def run(chk):
             if fail:
                 chk.fail(f"C06:{fail[0]}:{name}", fail[1], {"kind": "value", "type": name, "fields": repr(f),
                                                             "how": "tools/c06.py value_failure(type, fields)"})
+            tc = trivial_cast_failure(name, f)
+            if tc:
+                chk.fail(f"C06:trivial-cast:{name}", tc, {"kind": "value", "type": name, "fields": repr(f), "trivial_cast": True})
             # correspondence: constructor and print on the model
             try:
                 v = build_value(name, f)
@@ -824,6 +865,14 @@ def run(chk):
                 add(parse_case(tid, lit, obs), ("parse", name, lit))
             if name in MODEL_VALID:
                 add(valid_case(tid, lit, ok), ("valid", name, lit))
+
+    # ---- the PrimFloat model of the pre-repair expression int(float(frac) * 1e6) against CPython's floats
+    for k in range(150 if quick else 3000):
+        ds = "".join(rng.choice("0123456789") for _ in range(rng.choice([1, 2, 3, 6, 6, 6, 6, 7, 9, 12])))
+        if k < len(US_EDGE):
+            ds = "%06d" % US_EDGE[k]
+        add(case_term(6, 0, ds, [], [int(float("." + ds) * 1e6)]), ("old-us-float", "Time", ds))
+        chk.count("old-us-float")
 
     # ---- xs:float is a 32-bit type: a value beyond its range must not be written as if it were one
     try:
@@ -963,6 +1012,11 @@ def replay(path):
         except (ValueError, OverflowError):
             print("oracle: refused")
             return 0
+    if rp.get("trivial_cast"):
+        f = eval(rp["fields"], {"Decimal": decimal.Decimal, "nan": math.nan, "inf": math.inf})
+        res = trivial_cast_failure(rp["type"], f)
+        print("oracle:", res)
+        return 1 if res else 0
     if rp.get("kind") == "value" and "fields" in rp:
         f = eval(rp["fields"], {"Decimal": decimal.Decimal, "nan": math.nan, "inf": math.inf}) \
             if isinstance(rp["fields"], str) else rp["fields"]
